@@ -15,7 +15,7 @@ TECHNIQUE = "runtime monitor on make_header/str/parse_header and the header cons
 RULE = ("versions: every three-digit 1xx version and 200,201,202,203,210,211,220 x security {NONE,TYPE1,None} x UID pairs over "
         "[A-Za-z0-9_-]{1,36} (lengths 1, 36 and random; each character class); corruptions applied one at a time to the generated "
         "header text, exhaustively per field: unknown DATA/SECURITY/ENCODING/CHARSET/COMPRESSION token, OFXHEADER of the other kind, "
-        "non-numeric / 4-digit / unsupported-2xx VERSION, 37-character UID, each mandatory field omitted, each adjacent pair transposed; "
+        "non-numeric (letters, underscore, sign, exponent, hex, blank) / 4-digit / unsupported-2xx VERSION, each v1 corruption also inside every ENCODING x CHARSET pair with either SECURITY and real UIDs, 37-character UID, each mandatory field omitted, each adjacent pair transposed; "
         "make_header on 0-99, 300-999 and non-numeric versions; direct constructor calls with each bad field. "
         "A case = (operation, version, arguments or corrupted text)")
 ASSUMPTIONS = ["ref_header.py reads headers independently (self-tested)",
@@ -26,8 +26,8 @@ LEVEL_NOTE = "Trusts ref_header.py; only the urllib-free header layer is exercis
 DESIGN_REF = "DESIGN.md §3 C12"
 EXHAUSTIVE = {"quick": "all 100 1xx versions + 7 supported 2xx versions; every single-field corruption/omission/transposition per header kind",
               "thorough": "same, x many UID pairs"}
-MIN_COUNTERS = {"quick": {"roundtrips": 600, "corruptions": 1500, "make_header_refusals": 900, "constructor_refusals": 20},
-                "thorough": {"roundtrips": 20000, "corruptions": 30000, "make_header_refusals": 900, "constructor_refusals": 20}}
+MIN_COUNTERS = {"quick": {"roundtrips": 600, "corruptions": 15000, "corruptions_in_other_valid_headers": 12000, "make_header_refusals": 900, "constructor_refusals": 20},
+                "thorough": {"roundtrips": 20000, "corruptions": 200000, "corruptions_in_other_valid_headers": 150000, "make_header_refusals": 900, "constructor_refusals": 20}}
 
 V2_SUPPORTED = [200, 201, 202, 203, 210, 211, 220]
 UIDCHARS = "ABCDEFGHIJKLMNOPQRSTUVWXYZabcdefghijklmnopqrstuvwxyz0123456789_-"
@@ -161,13 +161,21 @@ def corruptions(ctx, H, rng, version1, version2):
             "CHARSET": ["1253", "UTF-8", "ISO-8859-2", "none", "USASCII", "TYPE1"],
             "COMPRESSION": ["GZIP", "ZIP", "OFXSGML", "TYPE1", "USASCII"],
             "OFXHEADER": ["200", "101", "1000", "abc", "0", "00", "000"],
-            "VERSION": ["1O2", "abc", "1020", "10200", "1.2"],
+            "VERSION": ["1O2", "abc", "1020", "10200", "1.2", "1_02", "10_2", "+102", "-102", "1e2", "0x66", "1 02", "102_"],
             "OLDFILEUID": [long37, long60],
             "NEWFILEUID": [long37, long60],
         }
         for field, bads in bad_values.items():
             for bad in bads:
                 must_refuse(ctx, H, v1_text(v1_lines(version1, **{field: bad}), sep), f"{field}={bad[:12]}", "v1")
+                # the same corruption inside every other valid header: each ENCODING x CHARSET pair, either SECURITY, real UIDs
+                for enc in ("USASCII", "UNICODE", "UTF-8"):
+                    for cs in ("ISO-8859-1", "1252", "NONE"):
+                        base = {"ENCODING": enc, "CHARSET": cs, "SECURITY": rng.choice(["NONE", "TYPE1"]),
+                                "OLDFILEUID": gen_uid(rng) or "NONE", "NEWFILEUID": gen_uid(rng) or "NONE"}
+                        base[field] = bad
+                        ctx.count("corruptions_in_other_valid_headers")
+                        must_refuse(ctx, H, v1_text(v1_lines(version1, **base), sep), f"{field}={bad[:12]}", "v1")
         rows = v1_lines(version1)
         for i, (k, v) in enumerate(rows):
             if k == "COMPRESSION":
@@ -181,7 +189,7 @@ def corruptions(ctx, H, rng, version1, version2):
     for q in ('"', "'"):
         bad_values = {
             "OFXHEADER": ["100", "201", "abc", "0", "00"],
-            "VERSION": ["204", "199", "221", "2030", "abc", "2O3", "20", "0"],
+            "VERSION": ["204", "199", "221", "2030", "abc", "2O3", "20", "0", "2_03", "20_3", "+203", "-203", "2e2", "0xcb", "2 03", "203_", "2.03"],
             "SECURITY": ["TYPE2", "none", "USASCII", "OFXSGML"],
             "OLDFILEUID": [long37, long60],
             "NEWFILEUID": [long37, long60],
